@@ -1,6 +1,7 @@
 import FgaVerif.Proofs.Weights
 import FgaVerif.Proofs.ReachComplete
 import FgaVerif.Proofs.WeightsCongr
+import FgaVerif.Proofs.WAssignCycle
 /-! # C05 — a model is accepted iff it is well-founded (specification side)
 
     As for C04, `Spec/Weights.lean` is a specification the real verdict is compared with under every
@@ -30,7 +31,15 @@ import FgaVerif.Proofs.WeightsCongr
       cycle, and every node is reached by some terminal user type (`HasType`: through any operand of a
       relation/union, every operand of an intersection, the base of an exclusion).
 
-    Not proved: anything about the Go algorithm. -/
+    And one clause about the **algorithm itself** (the port `Model/WAssign.lean` of `AssignWeights`, tied
+    to the code per forced start order by the stream `corr:wassign`):
+    * `algorithm_rejects_rewrite_cycles` — if some node of the built graph lies on a cycle of rewrite
+      and computed edges, the assignment returns the model-cycle error **for every start order**: the
+      three-colour depth-first pre-pass is complete (`Proofs/WAssignCycle.lean`: the finished nodes form
+      a topological list, and a topological list contains no node on a cycle);
+      `algorithm_prepass_complete` is the contrapositive.
+
+    Not proved: that the port's verdict equals the specification's in general. -/
 namespace FgaVerif.Props.C05
 open FgaVerif.Spec.Weights
 
@@ -150,6 +159,18 @@ theorem accepted_iff_well_founded (g : SGraph) (hc : Closed g) (hg : Converged g
         obtain ⟨T, hT⟩ := h3 n hn
         exact absurd hT ((no_terminal_iff_unreached g hg n.name).1 he T)
 
+/-- the ported pre-pass is complete: "no cycle" means no node of the graph is on a rewrite-only cycle -/
+theorem algorithm_prepass_complete (g : FgaVerif.Model.WGraph.G)
+    (h : FgaVerif.Model.WAssign.hasRewriteOnlyCycle g = false) :
+    ∀ n ∈ g.nodes, ¬ FgaVerif.Model.WAssign.RPath g n.uniqueLabel n.uniqueLabel :=
+  FgaVerif.Model.WAssign.no_cycle_of_prepass g h
+
+/-- **rewrite-only cycles never pass the (ported) algorithm, whatever the start order** -/
+theorem algorithm_rejects_rewrite_cycles (g : FgaVerif.Model.WGraph.G) (n : FgaVerif.Model.WGraph.WNode)
+    (hn : n ∈ g.nodes) (hc : FgaVerif.Model.WAssign.RPath g n.uniqueLabel n.uniqueLabel) (order : List String) :
+    FgaVerif.Model.WAssign.assignWeights g order = .error .modelCycle :=
+  FgaVerif.Model.WAssign.rewrite_cycle_rejected g n hn hc order
+
 /-! ### non-vacuity: `define a: b`, `define b: a or [user]` is rejected; without the back edge accepted -/
 def cyc : SGraph := [
   ⟨"doc#a", .rel, [⟨.node "doc#b", false, ""⟩]⟩,
@@ -162,5 +183,21 @@ def acyc : SGraph := [
 example : onCycle cyc false "doc#a" = true ∧ wellFounded cyc = false := by decide
 example : wellFounded acyc = true := by decide
 example : Converged acyc ∧ Converged cyc ∧ closedB acyc = true ∧ closedB cyc = true := by unfold Converged; decide
+
+/-- `define a: b`, `define b: a or [user]` as a built graph: `doc#a → doc#b → union → doc#a` is a cycle of
+    computed and rewrite edges -/
+def cycG : FgaVerif.Model.WGraph.G := {
+  nodes := [⟨"doc#a", "doc#a", .typeAndRelation⟩, ⟨"doc#b", "doc#b", .typeAndRelation⟩, ⟨"union:0", "union", .operator⟩,
+            ⟨"user", "user", .specificType⟩],
+  edges := [("doc#a", [⟨"doc#a", "doc#b", .computed, "", ["none"]⟩]),
+            ("doc#b", [⟨"doc#b", "union:0", .rewrite, "", ["none"]⟩]),
+            ("union:0", [⟨"union:0", "doc#a", .computed, "", ["none"]⟩, ⟨"union:0", "user", .direct, "", ["none"]⟩])] }
+
+example : FgaVerif.Model.WAssign.RPath cycG "doc#a" "doc#a" :=
+  .cons (y := "doc#b") (by unfold FgaVerif.Model.WAssign.RStep; decide)
+    (.cons (y := "union:0") (by unfold FgaVerif.Model.WAssign.RStep; decide)
+      (.one (by unfold FgaVerif.Model.WAssign.RStep; decide)))
+example : (match FgaVerif.Model.WAssign.assignWeights cycG ["union:0"] with
+    | .error e => e == .modelCycle | .ok _ => false) = true := by decide +kernel
 
 end FgaVerif.Props.C05
